@@ -159,3 +159,30 @@ package executors
 //@   call executeTasks#0: assert arg_tasks == vals && wg(pe.waitGroup) == w0
 //@   loop 0: modifies wg(pe.waitGroup), ctExecutes, ctExecArg, ctRemoveAlls, ctBatch, pe.inflight, pe.guarded
 //@   loop 0: invariant pe.container != nil
+
+// the bulk and chunk executors are thin wrappers: Add / Flush / Wait are the periodical executor's Add / Flush / Wait (in
+// particular Wait is Wait - it also covers batches already handed to the flusher - not merely a Flush)
+//@ func (ce *ChunkExecutor) Add
+//@   property C11
+//@   requires ce.executor != nil && ce.executor.container != nil
+//@   call Add#0: assert arg_recv == ce.executor
+//@ func (ce *ChunkExecutor) Flush
+//@   property C11
+//@   requires ce.executor != nil && ce.executor.container != nil
+//@   call Flush#0: assert arg_recv == ce.executor
+//@ func (ce *ChunkExecutor) Wait
+//@   property C11
+//@   requires ce.executor != nil && ce.executor.container != nil
+//@   call Wait#0: assert arg_recv == ce.executor
+//@ func (be *BulkExecutor) Add
+//@   property C11
+//@   requires be.executor != nil && be.executor.container != nil
+//@   call Add#0: assert arg_recv == be.executor && arg_task == task
+//@ func (be *BulkExecutor) Flush
+//@   property C11
+//@   requires be.executor != nil && be.executor.container != nil
+//@   call Flush#0: assert arg_recv == be.executor
+//@ func (be *BulkExecutor) Wait
+//@   property C11
+//@   requires be.executor != nil && be.executor.container != nil
+//@   call Wait#0: assert arg_recv == be.executor
